@@ -377,9 +377,11 @@ def build_classes(world, hooks=None):
                 pos = hooks.get("raise_in_block", {}).get((_cn, _blk["name"]))
                 for i, st in enumerate(_blk["body"]):
                     if pos is not None and pos == i:
+                        hooks.get("on_fire", lambda: None)()
                         raise hooks["exc"]("injected in block %s.%s at %d" % (_cn, _blk["name"], i))
                     em.stmt(st)
                 if pos is not None and pos >= len(_blk["body"]):
+                    hooks.get("on_fire", lambda: None)()
                     raise hooks["exc"]("injected in block %s.%s at end" % (_cn, _blk["name"]))
             body.__name__ = blk["name"]
             ns[blk["name"]] = (vsc.dynamic_constraint if blk.get("dynamic") else vsc.constraint)(body)
